@@ -5,7 +5,7 @@
 #   lib/seed.sh inrepo <seeddir> <ID> [tier] git -C /repo apply, ./check, git -C /repo checkout -- .   (the procedure of the brief; needs an otherwise idle /repo)
 set -u
 export GOFLAGS=-mod=mod GOPROXY=off GOSUMDB=off GOTOOLCHAIN=local
-VERIF=/verif
+VERIF=${VERIF:-$(cd "$(dirname "$0")/.." && pwd)}
 cmd=$1; seed=$(readlink -f "$2"); shift 2
 wt=$(mktemp -d /tmp/seedwt-XXXXXX)
 cleanup() { git -C /repo worktree remove --force "$wt" >/dev/null 2>&1; rm -rf "$wt" "$wt.out"; }
